@@ -279,6 +279,51 @@ def _check_map(case):
             shutil.rmtree(tmp, ignore_errors=True)
 
 
+# ---- map runs of a cached function whose arguments include its evaluated resources -------------------------------------
+def _res_cases(tier, rng):
+    for ctype in CACHES:
+        for scope in ("map", "element"):
+            for runs in ([[1, 2], [1, 2, 3]], [[1, 2, 3], [1, 2]], [[5], [5, 5]], [[1, 2], [2, 1], [1, 2]]):
+                yield {"cache": ctype, "scope": scope, "runs": runs}
+
+
+def _check_res(case):
+    """f(x, res) = (x, res.cpus) with resources computed from the run's inputs (scope 'map': from the whole array;
+    'element': from the element): two map runs on one cached pipeline that share element values but differ as a whole
+    must each return what the uncached computation returns."""
+    from pipefunc import PipeFunc, Pipeline
+    from pipefunc.resources import Resources
+    ctype, scope = case["cache"], case["scope"]
+    tmp = tempfile.mkdtemp(prefix="vf_c09r_") if ctype == "disk" else None
+    kw = {"cache_kwargs": {"cache_dir": tmp, "lru_shared": False}} if ctype == "disk" else \
+        ({"cache_kwargs": {"shared": False}} if ctype in ("lru", "hybrid") else {})
+
+    def f(x, res):
+        return (x, res.cpus)
+
+    def resources(kwargs):
+        x = kwargs["x"]
+        return Resources(cpus=len(x) if scope == "map" else int(x) + 1)
+    bad = []
+    try:
+        pf = PipeFunc(f, "y", mapspec="x[i] -> y[i]", resources=resources, resources_variable="res",
+                      resources_scope=scope, cache=True)
+        p = Pipeline([pf], cache_type=ctype, **kw)
+        for n, xs in enumerate(case["runs"]):
+            try:
+                res = p.map({"x": list(xs)}, parallel=False, storage="dict")
+            except Exception as e:  # noqa: BLE001
+                return [f"map run {n} raised {type(e).__name__}: {str(e)[:120]}"]
+            got = [tuple(v) for v in res["y"].output.tolist()]
+            want = [(x, len(xs) if scope == "map" else x + 1) for x in xs]
+            if got != want:
+                bad.append(f"run {n} over x={xs} with {ctype} cache (resources_scope={scope}): y = {got}, uncached: {want}")
+        return bad
+    finally:
+        if tmp:
+            shutil.rmtree(tmp, ignore_errors=True)
+
+
 def _nt(case):
     h = case.get("history")
     if h is None:
@@ -294,4 +339,6 @@ def bounded_checks():
                                   "map runs (twice) with every cache type equal the reference denotation",
                                   describe=lambda c: {"program": progs.describe(c["prog"]), "cache": c["cache"]},
                                   key=lambda c: repr((progs.describe(c["prog"]), c["cache"])), shards=4)),
+        ("cached-map-resources-twin", Check("cached-map-resources-twin", _res_cases, _check_res,
+                                            "cache type x resources_scope x sequences of map runs sharing element values")),
     ]
